@@ -208,7 +208,7 @@ def run_stream(ctx, bundles):
             cnt["traces"] += 1; cnt["class:" + cls] += 1
             c = _norm(c); mm = _norm(mm)
             if c.startswith("CRASH") or c == "HANG": cnt["c_crash_or_hang"] += 1; continue    # C04/C14 territory
-            if c != mm and " final ok " in c and " final ok " in (" " + mm):
+            if c != mm and " final ok " in (" " + c) and " final ok " in (" " + mm):
                 # same trace, same rc/total: compare the decoded values as abstract values (an absent DEFAULT member that the
                 # C structure holds inline is dumped with its zero value by reflect.c, the model dumps it as absent)
                 try:
